@@ -24,10 +24,34 @@ var (
 	changeModeReg  = regexp.MustCompile(changeModel)
 )
 
+// splitRenameGroup finds the rename group of git's in-directory notation `prefix{old => new}suffix` and returns
+// the whole text, prefix, old, new and suffix. Braces that belong to directory or file names are skipped by
+// matching them: the group is the outermost brace pair that holds " => " directly.
+func splitRenameGroup(file string) []string {
+	depth, open, arrow := 0, -1, -1
+	for i := 0; i < len(file); i++ {
+		switch {
+		case file[i] == '{':
+			if depth == 0 {
+				open, arrow = i, -1
+			}
+			depth++
+		case file[i] == '}' && depth > 0:
+			depth--
+			if depth == 0 && arrow >= 0 {
+				return []string{file, file[:open], file[open+1 : arrow], file[arrow+len(" => ") : i], file[i+1:]}
+			}
+		case depth == 1 && arrow < 0 && strings.HasPrefix(file[i:], " => "):
+			arrow = i
+		}
+	}
+	return nil
+}
+
 func UpdateMessageForChange(changedFile string) (string, string, string) {
 	oldFileName := changedFile
 	newFileName := changedFile
-	changed := complexMoveReg.FindStringSubmatch(changedFile)
+	changed := splitRenameGroup(changedFile)
 	// examples: cmd/{call_graph.go => call.go}
 	SUCCESS_MATCH_LENGTH := 5
 	if len(changed) == SUCCESS_MATCH_LENGTH {
